@@ -248,9 +248,9 @@ From BL Require Import Proofs.Slicing.
 Section Fetch.
 Variable O : oracle.
 
-(* opcodes of expression code neither read nor write the program counter, the program or the trace flags *)
+(* opcodes of expression code and of scalar assignment neither read nor write the program counter, the program or the trace flags *)
 Definition expr_op (op : opcode) : bool :=
-  match op with OpLiteral _ | OpPush _ | OpNeg | OpNot | OpBin _ => true | _ => false end.
+  match op with OpLiteral _ | OpPush _ | OpPop _ | OpNeg | OpNot | OpBin _ => true | _ => false end.
 
 Definition ctl_eq (r r' : rt) : Prop :=
   r_prog r' = r_prog r /\ r_tron r' = r_tron r /\ r_tr r' = r_tr r.
@@ -265,6 +265,9 @@ Proof.
   - (* push variable *) unfold rbind, rget, rlift. cbn [r_vars set_pc].
     match goal with |- context [var_fetch (r_vars r) ?n] => destruct (var_fetch (r_vars r) n) as [v | er | |] end; cbn; try (repeat split; try reflexivity; intros e E; discriminate).
     unfold push. cbn. destruct (MAX_POOL <? r_slen r + 1); cbn; repeat split; try reflexivity; intros e E; discriminate.
+  - (* pop into a variable *) unfold rbind, pop. cbn [r_stack set_pc].
+    destruct (r_stack r) as [| v st]; cbn; [repeat split; try reflexivity; intros e E; discriminate |].
+    match goal with |- context [var_store (r_vars r) ?n v] => destruct (var_store (r_vars r) n v) as [w | er | |] end; cbn; repeat split; try reflexivity; intros e E; discriminate.
   - (* neg *) unfold rbind, pop_1_push, rbind, pop. cbn [r_stack set_pc].
     destruct (r_stack r) as [| v st]; cbn; [repeat split; try reflexivity; intros e E; discriminate |].
     unfold rlift. destruct (op_negate v) as [w | er | |]; cbn; try (repeat split; try reflexivity; intros e E; discriminate).
